@@ -185,10 +185,18 @@ func Verif_c19_glob() {
 	for i := 0; i < len(pat); i++ {
 		verifAssume(verifInSet(pat[i], "*?abdBx./"))
 	}
-	opt := verifChoice("opt", len(verifGlobOpts))
-	want, kind := refGlobWord(pat, opt == 1, opt == 2, opt == 3, opt == 4)
+	// any combination of the four options
+	opt := verifChoice("opt", 16)
+	dot, null, nocase, noglob := opt&1 != 0, opt&2 != 0, opt&4 != 0, opt&8 != 0
+	want, kind := refGlobWord(pat, dot, null, nocase, noglob)
 	verifAssume(kind == 0)
-	src := verifGlobOpts[opt] + "\nprintf '%s\\n' " + pat + "\n"
+	src := ""
+	for i := 1; i <= 4; i++ {
+		if opt&(1<<(i-1)) != 0 {
+			src += verifGlobOpts[i] + "\n"
+		}
+	}
+	src += "printf '%s\\n' " + pat + "\n"
 	f, err := syntax.NewParser().Parse(strings.NewReader(src), "")
 	verifAssume(err == nil)
 	var out, errb bytes.Buffer
